@@ -1,5 +1,288 @@
-(* C06 — proofs about the model in Model.v. *)
+(* C06 — proofs about the model in Model.v (on top of C07/Model.v and its lemmas). *)
 From Coq Require Import List ZArith Lia Bool.
 Import ListNotations.
 From V Require Import Base.U32 Base.Bytes Base.Iface Gen.RelayConsts C07.Model C07.Proofs C06.Model.
 Local Open Scope Z_scope.
+
+(* ---------- calls never touch the outputs ---------- *)
+Lemma gout_do_call k s : gout (do_call k s) = gout s.
+Proof. unfold do_call. destruct (_ <? _); reflexivity. Qed.
+Lemma gout_value_changed ch v s : gout (value_changed ch v s) = gout s.
+Proof. unfold value_changed. destruct (reg s); auto using gout_do_call. Qed.
+Lemma gout_set_result ch sd ok s : gout (set_result ch sd ok s) = gout s.
+Proof. unfold set_result. destruct (conn s); auto using gout_do_call. Qed.
+Lemma relay_is_hi_gout c port s s' : gout s' = gout s -> relay_is_hi c port s' = relay_is_hi c port s.
+Proof. intros E. unfold relay_is_hi, pin. rewrite E. reflexivity. Qed.
+
+(* the logical level of a relay: the pin, inverted for active-low wiring *)
+Definition level (r : relay) (s : st) : bool := xorb (pin s (r_gpio r)) (hasf (r_flags r) FLAG_LO_LEVEL).
+Lemma relay_is_hi_level c a r s :
+  find_gpio (c_relays c) 0 (r_gpio r) = Some (a, r) -> relay_is_hi c (r_gpio r) s = if level r s then HI else LO.
+Proof.
+  intros E. unfold relay_is_hi, level. rewrite E. destruct (hasf (r_flags r) FLAG_LO_LEVEL), (pin s (r_gpio r)); reflexivity.
+Qed.
+
+(* ---------- _supla_esp_channel_set_value: set, read back, report the read-back value ---------- *)
+Theorem chan_set_value_thm c a r v ch s :
+  wf_cfg c -> In r (c_relays c) -> find_gpio (c_relays c) 0 (r_gpio r) = Some (a, r) ->
+  let '(s', ok) := chan_set_value c (r_gpio r) v ch s in
+  (* output follows the request, honouring active-low wiring *)
+  level r s' = (v =? 1) /\ ok = 1 /\
+  (* the value handed to srpc is the level that was read back; with room in the queue it is queued *)
+  (reg s = true -> len (queue s) < QUEUE_SIZE -> queue s' = queue s ++ [CVal ch (if level r s' then 1 else 0)]) /\
+  (reg s = false -> queue s' = queue s).
+Proof.
+  intros W Hr EF. unfold chan_set_value.
+  pose proof (wf_gpio _ W r Hr) as Hg. pose proof (cf_hi consts_ok) as cf_hi0. pose proof (cf_lo consts_ok) as cf_lo0.
+  set (want := if v =? 1 then HI else LO).
+  assert (Hw : want = 0 \/ want = 1) by (unfold want; rewrite cf_hi0, cf_lo0; destruct (v =? 1); auto).
+  set (s1 := relay_hi c (r_gpio r) want s).
+  assert (P1 : pin s1 (r_gpio r) = xorb (want =? 1) (hasf (r_flags r) FLAG_LO_LEVEL)) by (apply (pin_relay_hi c (r_gpio r) want a r s); auto; lia).
+  assert (L1 : level r s1 = (v =? 1)).
+  { unfold level. rewrite P1. unfold want. rewrite cf_hi0, cf_lo0. destruct (v =? 1), (hasf (r_flags r) FLAG_LO_LEVEL); reflexivity. }
+  assert (RB : relay_is_hi c (r_gpio r) s1 = want).
+  { rewrite (relay_is_hi_level c a r s1 EF), L1. unfold want. destruct (v =? 1); reflexivity. }
+  rewrite RB.
+  assert (Q1 : queue s1 = queue s /\ reg s1 = reg s).
+  { pose proof (passive_relay_hi c (r_gpio r) want s) as P. fold s1 in P. split; [|apply P].
+    unfold s1, relay_hi. destruct (find_gpio _ _ _) as [[? ?]|]; [destruct (_ || _)|]; unfold save_state; try destruct (0 <? _);
+      unfold gpio_write; destruct (Bool.eqb _ _); reflexivity. }
+  destruct Q1 as [Q1 R1].
+  assert (LV : level r (value_changed ch (if want =? HI then 1 else 0) s1) = (v =? 1)).
+  { unfold level, pin. rewrite gout_value_changed. exact L1. }
+  split; [exact LV|]. split; [rewrite Z.eqb_refl; reflexivity|].
+  rewrite LV. unfold value_changed, do_call. rewrite R1, Q1.
+  assert (EV : (if want =? HI then 1 else 0) = (if v =? 1 then 1 else 0)) by (unfold want; rewrite cf_hi0, cf_lo0; destruct (v =? 1); reflexivity).
+  rewrite EV. split.
+  - intros Hr' Hq. rewrite Hr'. destruct (len (queue s) <? QUEUE_SIZE) eqn:E; [reflexivity|apply Z.ltb_ge in E; lia].
+  - intros Hr'. rewrite Hr'. exact Q1.
+Qed.
+
+(* ---------- FIFO transport: srpc out-queue -> proto out buffer -> wire ---------- *)
+Fixpoint wired (l : list out) : list call :=      (* l is the reversed trace *)
+  match l with
+  | [] => []
+  | OWire _ k :: t => wired t ++ [k]
+  | _ :: t => wired t
+  end.
+(* every call accepted so far, in the order of acceptance *)
+Definition accepted (s : st) : list call := wired (outs s) ++ map fst (obuf s) ++ queue s.
+
+Lemma drain_split n l : let '(a, b) := drain n l in map fst l = a ++ map fst b.
+Proof.
+  revert n; induction l as [|[k r] l IH]; intros n; cbn; auto.
+  destruct (r <=? n).
+  - specialize (IH (n - r)). destruct (drain (n - r) l) as [a b]. cbn. rewrite IH. reflexivity.
+  - reflexivity.
+Qed.
+Lemma wired_fold t l : forall s, wired (outs (fold_left (fun acc k => emit (OWire t k) acc) l s)) = wired (outs s) ++ l.
+Proof.
+  induction l as [|k l IH]; intros s; cbn [fold_left]; [rewrite app_nil_r; reflexivity|].
+  rewrite IH. cbn [outs emit set_outs wired]. rewrite <- app_assoc. reflexivity.
+Qed.
+Lemma fold_emit_fields t l : forall s,
+  let s' := fold_left (fun acc k => emit (OWire t k) acc) l s in obuf s' = obuf s /\ queue s' = queue s /\ gout s' = gout s.
+Proof. induction l as [|k l IH]; intros s; cbn [fold_left]; auto. destruct (IH (emit (OWire t k) s)) as (A & B & C). auto. Qed.
+
+(* an iterate loses nothing, invents nothing and keeps the order *)
+Theorem fifo_thm s : accepted (iterate6 s) = accepted s /\ gout (iterate6 s) = gout s.
+Proof.
+  unfold iterate6. destruct (conn s); [|auto].
+  set (s1 := match queue s with k :: q => _ | [] => s end).
+  assert (A1 : accepted s1 = accepted s /\ gout s1 = gout s /\ outs s1 = outs s).
+  { unfold s1, accepted. destruct (queue s) as [|k q] eqn:EQ; [rewrite EQ; auto|]. cbn [outs obuf queue set_obuf set_queue gout].
+    rewrite map_app. cbn [map fst]. rewrite <- !app_assoc. auto. }
+  destruct A1 as (A1 & G1 & O1).
+  pose proof (drain_split SRPC_CHUNK (obuf s1)) as D. destruct (drain SRPC_CHUNK (obuf s1)) as [sent rest].
+  destruct (fold_emit_fields (now s) sent (set_obuf rest s1)) as (Fo & Fq & Fg). cbv zeta in Fo, Fq, Fg.
+  split; [|rewrite Fg; exact G1].
+  unfold accepted. rewrite wired_fold, Fo, Fq. cbn [outs obuf queue set_obuf].
+  unfold accepted in A1. rewrite <- A1. rewrite D, <- !app_assoc. reflexivity.
+Qed.
+(* when the device is idle (nothing queued, nothing buffered) everything accepted is on the wire *)
+Theorem idle_thm s : queue s = [] -> obuf s = [] -> wired (outs s) = accepted s.
+Proof. intros Q B. unfold accepted. rewrite Q, B. cbn. rewrite app_nil_r. reflexivity. Qed.
+
+(* ---------- the set-value handler ---------- *)
+Definition results (l : list call) : list call := filter (fun k => match k with CRes _ _ _ => true | _ => false end) l.
+Definition drops (l : list out) : list call := flat_map (fun o => match o with ODrop _ k => [k] | _ => [] end) l.
+
+(* machine-checked witnesses of the known defect (queue of SRPC_QUEUE_SIZE = 2): *)
+Definition cd_board : cfg6 :=
+  {| c6 := mkcfg [rl 4 0 0 CHFLAG_COUNTDOWN; rl 5 1 0 0] false; c6_inputs := [] |}.
+(* first timed command on a countdown-capable channel: timer state, value, result = 3 calls, the result is refused *)
+Lemma burst3_refuted_thm :
+  drops (run6 false cd_board [CReg; CSetV 0 1 3000 77; CIter; CIter; CIter]) = [CRes 0 77 1] /\
+  wired (rev (run6 false cd_board [CReg; CSetV 0 1 3000 77; CIter; CIter; CIter])) = [CExt 0 3000 0 77; CVal 0 1].
+Proof. vm_compute. split; reflexivity. Qed.
+(* ... while a timer runs: disarm state, new timer state, value, result = 4 calls, value and result are refused *)
+Lemma burst4_refuted_thm :
+  drops (run6 false cd_board [CReg; CSetV 0 1 3000 77; CIter; CIter; CIter; CSetV 0 0 5000 78; CIter; CIter; CIter]) =
+    [CRes 0 77 1; CVal 0 0; CRes 0 78 1].
+Proof. vm_compute. reflexivity. Qed.
+(* the same requests on a channel without countdown capability are answered *)
+Lemma plain_answered_thm :
+  drops (run6 false cd_board [CReg; CSetV 1 1 3000 77; CIter; CIter; CSetV 1 0 0 78; CIter; CIter]) = [] /\
+  wired (rev (run6 false cd_board [CReg; CSetV 1 1 3000 77; CIter; CIter; CSetV 1 0 0 78; CIter; CIter])) =
+    [CVal 1 1; CRes 1 77 1; CVal 1 0; CRes 1 78 1].
+Proof. vm_compute. split; reflexivity. Qed.
+
+(* ---------- which calls an operation issues: everything except the handler's own result is a value or a timer state ---------- *)
+Definition isres (k : call) : bool := match k with CRes _ _ _ => true | _ => false end.
+Fixpoint new_drops (l : list out) : list call :=      (* of a (reversed) piece of trace *)
+  match l with [] => [] | ODrop _ k :: t => new_drops t ++ [k] | _ :: t => new_drops t end.
+Lemma new_drops_app a b : new_drops (a ++ b) = new_drops b ++ new_drops a.
+Proof. induction a as [|o a IH]; cbn; [rewrite app_nil_r; auto|]. destruct o; auto. rewrite IH, app_assoc. reflexivity. Qed.
+(* s' was reached from s issuing only calls that are not results: qa were queued, da were refused *)
+Definition nores (s s' : st) : Prop :=
+  exists qa add, queue s' = queue s ++ qa /\ outs s' = add ++ outs s /\
+                 filter isres qa = [] /\ filter isres (new_drops add) = [] /\ conn s' = conn s.
+Lemma nores_refl s : nores s s.
+Proof. exists [], []. repeat split; auto. rewrite app_nil_r. reflexivity. Qed.
+Lemma nores_trans a b c : nores a b -> nores b c -> nores a c.
+Proof.
+  intros (q1 & a1 & Q1 & O1 & F1 & D1 & C1) (q2 & a2 & Q2 & O2 & F2 & D2 & C2).
+  exists (q1 ++ q2), (a2 ++ a1). repeat split.
+  - rewrite Q2, Q1, app_assoc. reflexivity.
+  - rewrite O2, O1, app_assoc. reflexivity.
+  - rewrite filter_app, F1, F2. reflexivity.
+  - rewrite new_drops_app, filter_app, D1, D2. reflexivity.
+  - congruence.
+Qed.
+Lemma nores_same s s' : queue s' = queue s -> (exists add, outs s' = add ++ outs s /\ new_drops add = []) -> conn s' = conn s -> nores s s'.
+Proof. intros Q (add & O & D) C. exists [], add. repeat split; auto. - rewrite app_nil_r; auto. - rewrite D. reflexivity. Qed.
+Lemma nores_do_call k s : isres k = false -> nores s (do_call k s).
+Proof.
+  intros H. unfold do_call. destruct (_ <? _).
+  - exists [k], []. repeat split; auto. cbn. rewrite H. reflexivity.
+  - exists [], [ODrop (now s) k]. repeat split; auto. + rewrite app_nil_r; auto. + cbn. rewrite H. reflexivity.
+Qed.
+Lemma nores_value_changed ch v s : nores s (value_changed ch v s).
+Proof. unfold value_changed. destruct (reg s); [apply nores_do_call; reflexivity|apply nores_refl]. Qed.
+Lemma nores_ext_changed c ch s : nores s (ext_changed c ch s).
+Proof. unfold ext_changed. destruct (reg s); [|apply nores_refl]. destruct (get_state _ _ _) as [[? ?] ?]. apply nores_do_call; reflexivity. Qed.
+Ltac nores_plain := apply nores_same; [reflexivity|eexists; split; [reflexivity|reflexivity]|reflexivity].
+Lemma nores_emit o s : (forall t k, o <> ODrop t k) -> nores s (emit o s).
+Proof.
+  intros H. apply nores_same; [reflexivity| |reflexivity]. exists [o]. split; [reflexivity|].
+  destruct o; try reflexivity. exfalso. eapply H; reflexivity.
+Qed.
+Lemma nores_relay_hi c port hi s : nores s (relay_hi c port hi s).
+Proof.
+  unfold relay_hi.
+  assert (K : forall b s0, nores s0 (delay_us 10 (delay_us DOUBLE_TRY_US (gpio_write port b (delay_us 10 s0))))).
+  { intros b s0. unfold gpio_write. destruct (Bool.eqb _ _).
+    - apply nores_same; [reflexivity|exists []; split; reflexivity|reflexivity].
+    - apply nores_same; [reflexivity|eexists [_]; split; reflexivity|reflexivity]. }
+  destruct (find_gpio _ _ _) as [[a r]|]; [|apply K]. destruct (_ || _); [|apply K].
+  eapply nores_trans; [apply K|]. unfold save_state. destruct (0 <? _).
+  - apply nores_same; [reflexivity|exists []; split; reflexivity|reflexivity].
+  - apply nores_same; [reflexivity|eexists [_]; split; reflexivity|reflexivity].
+Qed.
+Lemma nores_chan_set_value c port v ch s : nores s (fst (chan_set_value c port v ch s)).
+Proof. unfold chan_set_value. cbn [fst]. eapply nores_trans; [apply nores_relay_hi|apply nores_value_changed]. Qed.
+Lemma nores_t2_set ch v s : nores s (t2_set ch v s).
+Proof. unfold t2_set. destruct (_ <? _); [|apply nores_refl]. apply nores_same; [reflexivity|exists []; split; reflexivity|reflexivity]. Qed.
+Lemma nores_startstop s : nores s (startstop s).
+Proof.
+  destruct (startstop_same s) as (_ & _ & _ & _ & _ & _ & O & _ & _ & _ & C & _ & Q & _).
+  apply nores_same; auto. exists []. split; auto.
+Qed.
+Lemma nores_uptime s : nores s (fst (uptime_msec s)).
+Proof. unfold uptime_msec, uptime_usec. cbn [fst]. apply nores_same; [reflexivity|exists []; split; reflexivity|reflexivity]. Qed.
+Lemma nores_cb_slot c a s : nores s (cb_slot c a s).
+Proof.
+  unfold cb_slot. destruct (active _); [|apply nores_refl].
+  pose proof (nores_uptime s) as U. destruct (uptime_msec s) as [s1 u]. cbn [fst] in U.
+  destruct (_ <=? _).
+  - pose proof (nores_chan_set_value c (s_gpio (nth (Z.to_nat a) (slots s) slot_free))
+        (if s_target (nth (Z.to_nat a) (slots s) slot_free) =? 0 then LO else HI) (s_chan (nth (Z.to_nat a) (slots s) slot_free)) s1) as P.
+    destruct (chan_set_value _ _ _ _ s1) as [s3 ok]. cbn [fst] in P.
+    eapply nores_trans; [exact U|]. eapply nores_trans; [exact P|]. eapply nores_trans; [apply nores_t2_set|].
+    apply nores_same; [reflexivity|eexists [_]; split; reflexivity|reflexivity].
+  - eapply nores_trans; [exact U|]. eapply nores_trans; [apply nores_t2_set|].
+    apply nores_same; [reflexivity|exists []; split; reflexivity|reflexivity].
+Qed.
+Lemma nores_cd_cb c due s : nores s (cd_cb c due s).
+Proof.
+  rewrite cd_cb_eq. eapply nores_trans; [|apply nores_startstop].
+  eapply nores_trans; [|apply nores_emit; intros; discriminate].
+  rewrite cd_loop_unfold. repeat (eapply nores_trans; [|apply nores_cb_slot]). apply nores_emit; intros; discriminate.
+Qed.
+Lemma nores_disarm c ch s : nores s (disarm c ch s).
+Proof.
+  unfold disarm. destruct (find_slot _ _ _); [|apply nores_refl].
+  set (s1 := set_slots _ s). assert (N1 : nores s s1) by (apply nores_same; [reflexivity|exists []; split; reflexivity|reflexivity]).
+  destruct (0 <? _); auto. eapply nores_trans; [exact N1|]. eapply nores_trans; [apply nores_t2_set|].
+  destruct (chflags_of _ _ _); [destruct (hasf _ _)|]; try apply nores_refl. apply nores_ext_changed.
+Qed.
+Lemma nores_countdown e c ms gpio ch tg sd s : nores s (countdown e c ms gpio ch tg sd s).
+Proof.
+  unfold countdown. destruct (match find_slot _ _ _ with Some _ => _ | None => _ end); [|apply nores_refl].
+  pose proof (nores_uptime s) as U. destruct (uptime_msec s) as [s1 u]. cbn [fst] in U.
+  set (s2 := set_slots _ _). assert (N12 : nores s1 s2) by (apply nores_same; [reflexivity|eexists [_]; split; reflexivity|reflexivity]).
+  eapply nores_trans; [exact U|]. eapply nores_trans; [exact N12|]. eapply nores_trans; [apply nores_t2_set|].
+  destruct e; [apply nores_cd_cb|apply nores_startstop].
+Qed.
+Lemma nores_sdt e c ch nv dur sd s : nores s (set_duration_timer e c ch nv dur sd s).
+Proof.
+  unfold set_duration_timer.
+  set (stair := (ch <? ST_T2_COUNT) && (ch <? T2_COUNT) && (0 <? getz (time2 s) ch)).
+  set (s0 := if stair && (nv =? 0) then set_ram_t2 (setz (ram_t2 s) ch 0) s else s).
+  set (dur1 := if stair then _ else dur).
+  assert (F0 : nores s s0) by (unfold s0; destruct (stair && (nv =? 0)); [apply nores_same; [reflexivity|exists []; split; reflexivity|reflexivity]|apply nores_refl]).
+  set (s1 := disarm c (u8 ch) s0). assert (F1 : nores s0 s1) by apply nores_disarm.
+  pose proof (nores_trans _ _ _ F0 F1) as F01.
+  destruct (0 <? dur1); auto. destruct (find_chan (c_relays c) 0 ch) as [[a r]|]; auto.
+  set (f := getz (chfl s1) a).
+  set (s2 := if (nv =? 1) || hasf f CHFLAG_COUNTDOWN then _ else s1).
+  assert (F2 : nores s1 s2) by (unfold s2; destruct ((nv =? 1) || hasf f CHFLAG_COUNTDOWN); [apply nores_countdown|apply nores_refl]).
+  eapply nores_trans; [exact F01|]. eapply nores_trans; [exact F2|].
+  destruct (hasf f CHFLAG_COUNTDOWN); [apply nores_ext_changed|apply nores_refl].
+Qed.
+
+(* ---------- supla_esp_channel_set_value on an existing relay channel ---------- *)
+(* The handler drives the relay to the requested level, and issues exactly one result: it carries the channel, the
+   sender id of the request and Success = 1 (the read-back level matches the request).  Every other call it issues is a
+   value or a timer state.  "Issued" = handed to srpc_async_call: queued when the queue has room, refused otherwise. *)
+Theorem set_value_thm e c ch v dur sender a r s :
+  wf_cfg c -> In r (c_relays c) -> find_chan (c_relays c) 0 ch = Some (a, r) -> find_gpio (c_relays c) 0 (r_gpio r) = Some (a, r) ->
+  conn s = true ->
+  let s' := channel_set_value e c ch v dur sender s in
+  level r s' = (v =? 1) /\
+  exists qa add, queue s' = queue s ++ qa /\ outs s' = add ++ outs s /\
+    filter isres (qa ++ new_drops add) = [CRes ch sender 1].
+Proof.
+  intros W Hr EFC EFG Hc. cbv zeta. unfold channel_set_value. rewrite EFC.
+  set (s1 := set_duration_timer e c (r_chan r) v (s32 dur) sender s).
+  pose proof (nores_sdt e c (r_chan r) v (s32 dur) sender s) as N1. fold s1 in N1.
+  pose proof (chan_set_value_thm c a r v ch s1 W Hr EFG) as CS.
+  pose proof (nores_chan_set_value c (r_gpio r) v ch s1) as N2.
+  destruct (chan_set_value c (r_gpio r) v ch s1) as [s2 ok]. cbn [fst] in N2.
+  destruct CS as (LV & -> & _).
+  destruct (nores_trans _ _ _ N1 N2) as (qa & add & Q & O & F & D & C).
+  split.
+  - unfold level, pin. rewrite gout_set_result. exact LV.
+  - unfold set_result. rewrite C, Hc. unfold do_call. destruct (_ <? _).
+    + exists (qa ++ [CRes ch sender 1]), add. cbn [queue outs set_queue]. repeat split.
+      * rewrite Q, app_assoc. reflexivity.
+      * exact O.
+      * rewrite !filter_app, F, D. reflexivity.
+    + exists qa, (ODrop (now s2) (CRes ch sender 1) :: add). cbn [queue outs emit set_outs]. repeat split; auto.
+      * rewrite O. reflexivity.
+      * cbn [new_drops]. rewrite !filter_app, F, D. reflexivity.
+Qed.
+
+(* _except_known form: when the out-queue had room for every call of the handler (H_queue_room: nothing was refused),
+   the one result is in the queue, behind everything issued before it, and fifo_thm / idle_thm carry it to the wire *)
+Theorem set_value_result_queued_thm e c ch v dur sender a r s :
+  wf_cfg c -> In r (c_relays c) -> find_chan (c_relays c) 0 ch = Some (a, r) -> find_gpio (c_relays c) 0 (r_gpio r) = Some (a, r) ->
+  conn s = true ->
+  let s' := channel_set_value e c ch v dur sender s in
+  (forall add, outs s' = add ++ outs s -> new_drops add = []) ->
+  exists qa, queue s' = queue s ++ qa /\ filter isres qa = [CRes ch sender 1].
+Proof.
+  intros W Hr EFC EFG Hc s' Room.
+  destruct (set_value_thm e c ch v dur sender a r s W Hr EFC EFG Hc) as (_ & qa & add & Q & O & F).
+  exists qa. split; auto. fold s' in O. rewrite (Room add O), app_nil_r in F. exact F.
+Qed.
